@@ -144,7 +144,12 @@ func (x *ibbRun) enabled(a ibbAction) bool {
 var closeIQ = regexp.MustCompile(`<iq[^>]*id="([^"]+)"[^>]*><close `)
 
 func (x *ibbRun) readerWoken(what string, open bool) bool {
-	if x.expect(x.reader, "C06/ibb-read/not-woken", "C06/ibb-close/handler-panic", what, "ibb.read.woken") == "" {
+	key := "C06/ibb-read/not-woken"
+	if x.tok && open {
+		// the wake-up was sent before the reader waited and must have been kept
+		key = "C06/ibb-read/lost-wakeup"
+	}
+	if x.expect(x.reader, key, "C06/ibb-close/handler-panic", what, "ibb.read.woken") == "" {
 		return false
 	}
 	x.rpos, x.ropen = "woken", open
@@ -188,7 +193,7 @@ func (x *ibbRun) do(a ibbAction) {
 		x.label("FWait")
 		switch {
 		case x.tok:
-			if !x.readerWoken("a reader did not take the buffered wake-up", true) {
+			if !x.readerWoken("Read is blocked although a wake-up was sent between its empty-buffer check and its wait: the notification was dropped", true) {
 				return
 			}
 			x.tok = false
@@ -235,7 +240,17 @@ func (x *ibbRun) do(a ibbAction) {
 		}
 		if x.closed {
 			// the stream is unknown to the handler now: the packet is refused, nothing else happens
-			if x.expect(x.serve, "C06/ibb/handler-stall:data-after-close", "C06/ibb-close/handler-panic:data-after-close", "a data packet for a closed stream was not refused", "@serve.iter") == "" {
+			e := x.expect(x.serve, "C06/ibb/handler-stall:data-after-close", "C06/ibb-close/handler-panic:data-after-close", "a data packet for a closed stream was not refused", "@serve.iter", "ibb.payload.locked")
+			if e == "" {
+				return
+			}
+			if e == "ibb.payload.locked" {
+				// the handler still knows the closed stream: let it go on and see what happens
+				x.g.release(x.serve)
+				if x.expect(x.serve, "C06/ibb/handler-stall:data-after-close", "C06/ibb-close/handler-panic:data-after-close", "the data handler, given a packet for a closed stream, did not return", "@serve.iter") == "" {
+					return
+				}
+				x.fail("C06/ibb-close/data-accepted-after-close", "a data packet for a stream that was closed was not refused by the handler")
 				return
 			}
 			x.classes["data-after-close"] = true
